@@ -46,6 +46,12 @@ func c10History(c *rt.Ctx, fsType string, h int) {
 	_ = base.MkdirAll("/outside/"+c10Canary+"-dir", 0o755)
 	_ = base.WriteFile(base.Dir(B)+"/sibling-"+c10Canary, []byte(c10Canary+"-bytes"), 0o644)
 	_ = base.WriteFile("/tmp/"+c10Canary, []byte(c10Canary+"-bytes"), 0o644)
+	// a sibling whose name merely extends B's as a string, holding the same names as the workload uses inside B
+	sibling := B + "-" + c10Canary
+	_ = base.MkdirAll(sibling+"/w/a", 0o755)
+	for _, f := range []string{"/w/b", "/w/c", "/w/a/a", "/a", "/b"} {
+		_ = base.WriteFile(sibling+f, []byte(c10Canary+"-bytes"), 0o644)
+	}
 	// identical random content inside B and in the reference
 	sa, sb := r.Uint64(), r.Uint64()
 	tcfg := gen.Cfg{Root: "/w", Names: []string{"a", "b", "c"}, Depth: 3, Links: true, Owners: true, AvoidRootOps: true}
@@ -126,6 +132,17 @@ func c10History(c *rt.Ctx, fsType string, h int) {
 			}
 		}
 		if o.K == "F.Chdir" || o.K == "Getwd" {
+			continue
+		}
+		if r.IntN(12) == 0 {
+			// the base file system is still usable directly: its current directory moves outside B (for the wrapper
+			// that is the root of B, as for a process whose directory is outside its chroot)
+			d := []string{sibling, sibling + "/w", "/outside", "/", base.Dir(B)}[r.IntN(5)]
+			if d != B && base.Chdir(d) == nil {
+				_ = ref.Chdir("/")
+				hist = append(hist, fmt.Sprintf("base-side Chdir(%q)", d))
+				before = outside()
+			}
 			continue
 		}
 		if o.K == "Rename" && viewAbs(ref, cwd, o.P) == viewAbs(ref, cwd, o.Q) {
@@ -229,7 +246,7 @@ func init() {
 		Shards: shards(8, 16),
 		Meta: func(tier string) rt.Meta {
 			return rt.Meta{Level: "exploration", MinEvals: 2000, MinDistinct: 20,
-				Rule:        "bases MemFS/OrefaFS with a base directory B (/BASE, /BASE/sub, /x/BASE) holding a random tree, canary files and directories outside B; histories of 100 calls (all path-taking calls and File methods; absolute, relative, unclean paths; one call in four gets an adversarial operand: '..'-chains, B's own prefix, canary names) issued in lockstep on BasePathFS(base,B) and on a standalone file system holding B's content. Monitors: snapshot (incl. mtimes) of everything outside B before/after every call; canary/base-path search in every returned value and error text; outcome, content of B and cwd equal to the standalone reference. Signature = base fs | call kind | outcome; all non-trivial.",
+				Rule:        "bases MemFS/OrefaFS with a base directory B (/BASE, /BASE/sub, /x/BASE) holding a random tree, canary files and directories outside B (among them a sibling directory whose name extends B's as a string and holds the workload's names; the current directory of the base is moved there and elsewhere outside B from the base side); histories of 100 calls (all path-taking calls and File methods; absolute, relative, unclean paths; one call in four gets an adversarial operand: '..'-chains, B's own prefix, canary names) issued in lockstep on BasePathFS(base,B) and on a standalone file system holding B's content. Monitors: snapshot (incl. mtimes) of everything outside B before/after every call; canary/base-path search in every returned value and error text; outcome, content of B and cwd equal to the standalone reference. Signature = base fs | call kind | outcome; all non-trivial.",
 				Assumptions: []string{"B's content is symlink-free (BasePathFS removes FeatSymlink)", "File.Name and Abs are checked for leaks only", "the root as operand of Remove/RemoveAll/Rename is left to C07"}}
 		},
 		Run: func(c *rt.Ctx) {
